@@ -10,4 +10,13 @@ CLAIMED = {
  'C17': dict(
    text='Theorems C17_seek_equals_find / C17_seek_step: for every reachable Lapper state and every query sequence with non-decreasing starts through one cursor from 0, every seek equals filter-overlap (= find) and no slice index is out of range (indices are modelled with Panic); insert-only histories are covered for arbitrary intervals. Differential run against the real seek with repeated, jumping and past-the-end queries.',
    note='Trusted: as C16. Cursor values themselves are not compared (unspecified by the property).'),
+ 'C18': dict(
+   text='Theorems C18_merge_canonical (for every history over non-empty intervals, merge_overlaps yields a strictly separated ascending list covering exactly the same positions; merging again changes nothing; the state invariant is kept), C18_canonical_unique (such a cover is unique) and C18_after_merge (after the merge and any continuation of inserts/merges, find = filter overlap, count = its length, cov = cardinality of the covered set). Differential run compares the merged (start,stop) list, a second merge, and find/count/seek/cov before and after further inserts.',
+   note='Trusted: as C16. The payload `val` of merged intervals is not compared (unspecified).'),
+ 'C19': dict(
+   text='Theorems C19_cov_card (cov(), cached or recomputed, is the cardinality of the covered position set in every reachable state), C19_union_intersect(_reachable) (both branches of union_and_intersect return the cardinalities of union and intersection, under the guard cov A + cov B <= type maximum) and C19_symmetric. CardOf is witnessed by a duplicate-free enumeration of positions. Differential run over pairs of sets x merged/unmerged x histories of set_cov/insert/merge, both argument orders.',
+   note='Trusted: as C16. Guard: cov A + cov B must be representable in the coordinate type (the raw addition in the code panics/wraps otherwise; the model says Panic there and the harness observes the same).'),
+ 'C20': dict(
+   text='Theorems C20_depth_rle (for every reachable Lapper over non-empty intervals bounded by the type maximum W, depth() does not panic, needs no look-ahead past W, and its output is a DepthRLE: non-empty runs with positive depth equal to the pointwise depth, ascending, adjacent runs differ, runs tile exactly the covered positions), C20_empty, C20_unique (the encoding is unique) and C20_depth_step_counts. Differential run on u64 and u8 instances incl. stop = u8::MAX and the empty set (findings F2a/F2b, fixed).',
+   note='Trusted: as C16. More than W overlapping intervals at one position (I::from(depth).unwrap()) is outside the model.'),
 }
